@@ -107,7 +107,7 @@ def make_replay(pid, o, unit_res, seed):
     tried = None
     if drv:
         short = name.split('#')[0] + '#'
-        exact = name.replace(o['fn'] + '#BODY', '#BODY')
+        exact = name.replace(o['fn'] + '#BODY', '#BODY').replace(o['fn'] + '#NOABORT', '#BODY')
         for (sd, budget) in ((seed + 1, 60000), (seed + 77, 200000)):
             # 1. the executable twin of exactly this clause, 2. any twin of the same function
             tried = search(drv, sd, budget, exact)
